@@ -623,7 +623,7 @@ func c31Scopes(c *an.Ctx) {
 			declared[constant.StringVal(k.Val())] = nm
 		}
 	}
-	c.Min("O3 declared DagScope constants", len(declared), 3)
+	c.Min("O3 declared DagScope constants", len(declared), 2)
 	// buildCarParams: switch over DagScope values
 	_, fd := p.FuncDecl(c30Gw, "", "buildCarParams")
 	bcp := p.Func(c30Gw, "", "buildCarParams")
@@ -1143,9 +1143,9 @@ func c31EntityBytes(c *an.Ctx) {
 			}
 		}
 	}
-	c.Min("O5 reads of the entity reader (io.Copy / io.CopyN)", len(reads), 2)
-	c.Min("O5 absolute seeks of the entity reader", len(abs), 2)
-	c.Min("O5 length probes Seek(0, SeekEnd)", len(probes), 2)
+	c.Min("O5 reads of the entity reader (io.Copy / io.CopyN)", len(reads), 1)
+	c.Min("O5 absolute seeks of the entity reader", len(abs), 1)
+	c.Min("O5 length probes Seek(0, SeekEnd)", len(probes), 1)
 	blocked := map[ssa.Instruction]bool{}
 	for _, s := range abs {
 		blocked[s] = true
